@@ -324,6 +324,68 @@ def noCycle (m : Model) (typ : String) (rd : RelDef) : V :=
   | .yes => .error (.cycle typ rd.name)
   | .err e => .error e
 
+/-! ### the computed-userset graph (what `HasCycle` is about) -/
+
+mutual
+/-- the relations a rewrite refers to by a computed userset, through union / intersection / difference only -/
+def cuLeaves : Rewrite → List String
+  | .this => []
+  | .computed c => [c]
+  | .ttu _ _ => []
+  | .union cs => cuLeavesL cs
+  | .inter cs => cuLeavesL cs
+  | .diff b s => cuLeaves b ++ cuLeaves s
+def cuLeavesL : List Rewrite → List String
+  | [] => []
+  | c :: cs => cuLeaves c ++ cuLeavesL cs
+end
+
+/-- `a`'s rewrite mentions `b` as a computed userset: evaluating `a` on an object needs `b` on the SAME object -/
+def Edge (m : Model) (typ a b : String) : Prop := ∃ rd, m.findRel typ a = some rd ∧ b ∈ cuLeaves rd.rewrite
+
+/-- a non-empty chain of computed-userset references -/
+inductive Path (m : Model) (typ : String) : String → String → Prop where
+  | single {a b : String} : Edge m typ a b → Path m typ a b
+  | cons {a b c : String} : Edge m typ a b → Path m typ b c → Path m typ a c
+
+/-! ### entrypoints, semantically: the least fixpoint "some user can be related" -/
+
+mutual
+/-- given the set `R` of relations already known to have an entrypoint, does this rewrite have one? -/
+def reachRw (m : Model) (R : List (String × String)) (typ : String) (restrs : List Restr) : Rewrite → Bool
+  | .this => restrs.any (fun x => x.wild || x.rel = "" || R.contains (x.typ, x.rel))
+  | .computed c => R.contains (typ, c)
+  | .ttu ts c =>
+    match m.findRel typ ts with
+    | none => false
+    | some tsRel => tsRel.restrs.any (fun x => (m.findRel x.typ c).isSome && R.contains (x.typ, c))
+  | .union cs => reachAny m R typ restrs cs
+  | .inter cs => reachAll m R typ restrs cs
+  | .diff b s => reachRw m R typ restrs b && reachRw m R typ restrs s
+def reachAny (m : Model) (R : List (String × String)) (typ : String) (restrs : List Restr) : List Rewrite → Bool
+  | [] => false
+  | c :: cs => reachRw m R typ restrs c || reachAny m R typ restrs cs
+def reachAll (m : Model) (R : List (String × String)) (typ : String) (restrs : List Restr) : List Rewrite → Bool
+  | [] => true
+  | c :: cs => reachRw m R typ restrs c && reachAll m R typ restrs cs
+end
+
+def allRelations (m : Model) : List (String × RelDef) := m.types.flatMap (fun td => td.rels.map (fun rd => (td.name, rd)))
+
+def reachStep (m : Model) (R : List (String × String)) : List (String × String) :=
+  ((allRelations m).filter (fun p => reachRw m R p.1 p.2.restrs p.2.rewrite)).map (fun p => (p.1, p.2.name))
+
+def reachIter (m : Model) : Nat → List (String × String) → List (String × String)
+  | 0, R => R
+  | n + 1, R => reachIter m n (reachStep m R)
+
+/-- the relations that have an entrypoint (Kleene iteration: one round per relation suffices) -/
+def reachable (m : Model) : List (String × String) := reachIter m ((allRelations m).length + 1) []
+
+/-- relations of a model without an entrypoint -/
+def unreachable (m : Model) : List (String × String) :=
+  ((allRelations m).map (fun p => (p.1, p.2.name))).filter (fun p => !(reachable m).contains p)
+
 /-! ### validateRelation, NewAndValidate -/
 
 def validateRelation (m : Model) (typ : String) (rd : RelDef) : V := do
